@@ -474,6 +474,8 @@ func ExtraLayouts() []Layout {
 		{Name: "x_two_audio", VideoTS: 90000, FrameDur: 3000, SegFrames: []int{60, 60, 60, 60}, AudioSegs: []int{94, 94, 94, 93}, Audio2AC3: true},
 		// AAC at 44.1 kHz (segments of 86 frames, just under 2 s; the loop is the video's)
 		{Name: "x_audio_441", VideoTS: 90000, FrameDur: 3000, SegFrames: []int{60, 60, 60, 60}, AudioSegs: []int{87, 86, 86, 86}, AudioTS: 44100},
+		// a 10 MHz video timescale (as packagers coming from Smooth Streaming use): 25 fps, 2 s segments
+		{Name: "x_ts_10mhz", VideoTS: 10_000_000, FrameDur: 400_000, SegFrames: []int{50, 50, 50, 50}, AudioSegs: []int{94, 94, 94, 93}, Text: true},
 		{Name: "x_rep_ids", VideoTS: 90000, FrameDur: 3000, SegFrames: []int{60, 60, 60, 60}, AudioSegs: []int{94, 94, 94, 93}, VideoID: "V300:b", ExtraVideo: "V300_b"},
 		{Name: "x_two_video_grids", VideoTS: 90000, FrameDur: 3000, SegFrames: []int{60, 60, 60, 60}, ExtraVideo: "V8s", ExtraSegFrames: []int{240}, ExtraOwnAS: true, UseTime: true},
 	}
